@@ -49,6 +49,90 @@ static void set_un(const Interval& x, double d) {
   EMIT("contains %s %s => %s\n", tok(x).c_str(), hex(d).c_str(), tok(x.contains(d)).c_str());
 }
 
+static string tokboxes(int n, IntervalVector* res) {
+  string s; int k = 0;
+  for (int i = 0; i < n; i++) { if (res[i].is_empty()) continue; if (k++) s += "|"; s += tok(res[i]); }
+  return k ? s : "-";
+}
+static IntervalVector related_box(Rng& r, const IntervalVector& x) {
+  IntervalVector y(x.size());
+  if (x.is_empty()) return rand_box(r, x.size());
+  for (int i = 0; i < x.size(); i++) {
+    switch (r.below(7)) {
+      case 0: y[i] = x[i]; break;
+      case 1: y[i] = Interval(x[i].lb(), x[i].lb()); break;
+      case 2: y[i] = Interval(x[i].ub(), x[i].ub()); break;
+      case 3: y[i] = x[i].is_unbounded() ? x[i] : Interval(x[i].mid(), x[i].ub()); break;
+      case 4: y[i] = Interval(x[i].ub(), std::max(x[i].ub(), rand_double(r))); break;
+      case 5: y[i] = Interval::all_reals(); break;
+      default: do { y[i] = rand_itv(r, 0); } while (y[i].is_empty());
+    }
+    if (y[i].is_empty() || y[i].lb() == POS_INFINITY || y[i].ub() == NEG_INFINITY) y[i] = x[i];
+  }
+  return y;
+}
+static void box_ops(const IntervalVector& x, const IntervalVector& y) {
+  const char* X = 0; string sx = tok(x), sy = tok(y); (void)X;
+  EMIT("vinter %s %s => %s\n", sx.c_str(), sy.c_str(), tok(x & y).c_str());
+  EMIT("vhull %s %s => %s\n", sx.c_str(), sy.c_str(), tok(x | y).c_str());
+  EMIT("vis_subset %s %s => %s\n", sx.c_str(), sy.c_str(), tok(x.is_subset(y)).c_str());
+  EMIT("vis_strict_subset %s %s => %s\n", sx.c_str(), sy.c_str(), tok(x.is_strict_subset(y)).c_str());
+  EMIT("vis_interior_subset %s %s => %s\n", sx.c_str(), sy.c_str(), tok(x.is_interior_subset(y)).c_str());
+  EMIT("vintersects %s %s => %s\n", sx.c_str(), sy.c_str(), tok(x.intersects(y)).c_str());
+  EMIT("voverlaps %s %s => %s\n", sx.c_str(), sy.c_str(), tok(x.overlaps(y)).c_str());
+  EMIT("vis_disjoint %s %s => %s\n", sx.c_str(), sy.c_str(), tok(x.is_disjoint(y)).c_str());
+  { IntervalVector* res; int n = x.diff(y, res); EMIT("vdiff %s %s => %s\n", sx.c_str(), sy.c_str(), tokboxes(n, res).c_str()); delete[] res; }
+  if (!y.is_empty()) { IntervalVector* res; int n = y.complementary(res); EMIT("vcompl %s => %s\n", sy.c_str(), tokboxes(n, res).c_str()); delete[] res; }
+  EMIT("cart_prod %s %s => %s\n", sx.c_str(), sy.c_str(), tok(cart_prod(x, y)).c_str());
+}
+static void bisect_ops(Rng& r, const Interval& x) {
+  EMIT("is_bisectable %s => %s\n", tok(x).c_str(), tok(x.is_bisectable()).c_str());
+  if (!x.is_bisectable()) return;
+  static const double ratios[] = {0.5, 0.45, 0.1, 0.9, 0.999999999, 1e-9, 0.3, 0.75, 1e-300, 0.9999999999999999};
+  for (double ratio : ratios) { if (!r.coin(40)) continue;
+    pair<Interval, Interval> p = x.bisect(ratio);
+    EMIT("bisect %s %s => %s %s\n", tok(x).c_str(), hex(ratio).c_str(), tok(p.first).c_str(), tok(p.second).c_str()); }
+}
+static void vbisect_ops(Rng& r, const IntervalVector& x) {
+  if (x.is_empty()) return;
+  int i = r.below(x.size());
+  if (!x[i].is_bisectable()) return;
+  double ratio = r.coin() ? 0.5 : (r.coin() ? 0.45 : (1 + r.below(98)) / 100.0);
+  pair<IntervalVector, IntervalVector> p = x.bisect(i, ratio);
+  EMIT("vbisect %s %d %s => %s %s\n", tok(x).c_str(), i, hex(ratio).c_str(), tok(p.first).c_str(), tok(p.second).c_str());
+}
+static string tokvec(const Vector& v) { string s; for (int i = 0; i < v.size(); i++) { if (i) s += ";"; s += hex(v[i]); } return s; }
+static void bsc_ops(Rng& r, const IntervalVector& x) {
+  if (x.is_empty()) return;
+  int n = x.size();
+  Vector prec(n);
+  bool uniform = r.coin(40);
+  double p0 = r.coin(30) ? 0.0 : std::ldexp(1.0, r.range(-40, 12));
+  for (int i = 0; i < n; i++) prec[i] = uniform ? p0 : (r.coin(20) ? 0.0 : (r.coin(30) ? x[i].diam() : std::ldexp(1.0, r.range(-40, 12))));
+  for (int i = 0; i < n; i++) if (!(prec[i] == prec[i]) || prec[i] == POS_INFINITY) prec[i] = 1.0;
+  for (int cls = 0; cls < 2; cls++) {
+    Bsc* b = cls == 0 ? (Bsc*)new LargestFirst(prec, 0.45) : (Bsc*)new RoundRobin(prec, 0.45);
+    string res;
+    Cell c(x);
+    b->add_property(x, c.prop);
+    int calls = cls == 1 ? 3 : 1; // RoundRobin: successive calls move the last variable
+    for (int k = 0; k < calls; k++) {
+      try { BisectionPoint bp = b->choose_var(c); res = to_string(bp.var);
+            if (cls == 1) c.bisected_var = bp.var; }
+      catch (NoBisectableVariableException&) { res = "none"; }
+      EMIT("bsc %s %s %s => %s\n", cls == 0 ? "LargestFirst" : "RoundRobin", tok(x).c_str(), tokvec(prec).c_str(), res.c_str());
+    }
+    // the public entry point: bisect(box) must split the chosen variable into a strict cover
+    try { pair<IntervalVector, IntervalVector> p = b->bisect(x);
+          int var = -1; for (int i = 0; i < n; i++) if (p.first[i] != x[i]) { var = i; break; }
+          if (var >= 0) { EMIT("vbisect %s %d %s => %s %s\n", tok(x).c_str(), var, hex(0.45).c_str(), tok(p.first).c_str(), tok(p.second).c_str());
+                          EMIT("bsc %s %s %s => %d\n", cls == 0 ? "LargestFirst.bisect" : "RoundRobin.bisect", tok(x).c_str(), tokvec(prec).c_str(), var); }
+          else EMIT("vbisect %s 0 %s => %s %s\n", tok(x).c_str(), hex(0.45).c_str(), tok(p.first).c_str(), tok(p.second).c_str());
+    } catch (NoBisectableVariableException&) { EMIT("bsc %s %s %s => none\n", cls == 0 ? "LargestFirst.bisect" : "RoundRobin.bisect", tok(x).c_str(), tokvec(prec).c_str()); }
+    delete b;
+  }
+}
+
 int main(int argc, char** argv) {
   string wl = argc > 1 ? argv[1] : "c01";
   uint64_t seed = argc > 2 ? strtoull(argv[2], 0, 10) : 1;
@@ -75,6 +159,17 @@ int main(int argc, char** argv) {
         if (y.lb() == POS_INFINITY || y.ub() == NEG_INFINITY) y = x;
       }
       set_ops(x, y); set_un(x, r.coin() ? rand_double(r) : (x.is_empty() ? 0.0 : (r.coin() ? x.lb() : x.ub())));
+    }
+  } else if (wl == "c16box") {
+    for (auto& x : LI) if (full || r.coin(25)) bisect_ops(r, x);
+    for (long i = 0; i < n; i++) {
+      int d = 1 + r.below(4);
+      IntervalVector x = rand_box(r, d), y = r.coin(60) ? related_box(r, x) : rand_box(r, d);
+      box_ops(x, y); vbisect_ops(r, x); bsc_ops(r, x);
+      // narrow boxes for the bisector precision logic
+      IntervalVector w(d); for (int k = 0; k < d; k++) { double a = rand_double(r); if (!(fabs(a) < 1e300)) a = 1.0; double wd = r.coin(30) ? 0 : std::ldexp(1.0, r.range(-45, 5)); w[k] = Interval(a, a + wd); }
+      bsc_ops(r, w);
+      bisect_ops(r, rand_itv(r));
     }
   } else { fprintf(stderr, "unknown workload\n"); return 2; }
   fprintf(stderr, "emitted %ld\n", emitted);
